@@ -122,18 +122,57 @@ def build_view(rng, cls, content_len):
         v = e.create_cbc_io(slot, inner, iv) if cls == 'cbc-on-window' else e.create_ctr_io(slot, inner, ctr)
         o = len(pre)
         return v, content, cls != 'cbc-on-window', (lambda: bio.getvalue()[:o] + b'|' + bio.getvalue()[o + len(content):]), [bio, inner, e]
+    if cls == 'reader-file':
+        # a handle that keeps its own position and asks its reader for the bytes (_ReaderOpenFileBase): the decompressed .code of an ExeFS
+        from pyctr.type.exefs import ExeFSReader
+        from ..builders import exefs as XB, lzss as LZ
+        plain = (pyenv.rbytes(rng, 7) * 40 + content)[:max(64, content_len + 40)]
+        code = LZ.compress(plain, None, greedy=True)[0]
+        if code is None:
+            plain = b'abcabcabd' * 30
+            code = LZ.compress(plain, None, greedy=True)[0]
+        img = XB.build_exefs([('.code', code), ('banner', b'\x02' * 0x40)])[0]
+        bio = io.BytesIO(img)
+        r = ExeFSReader(bio, _load_icon=False)
+        r.decompress_code()
+        v = r.open('.code-decompressed')
+        return v, plain, False, None, [bio, r]
+    if cls == 'dpfs-file':
+        # the DPFS level-3 file of a save partition: a window scattered over the active copies of its blocks
+        from .. import savecommon as sv
+        g = sv.gen_geom(rng, small=True)
+        g['kind'] = 'diff'
+        img, info, payloads = sv.build(g)
+        c, bio = sv.open_container(img, 'diff')
+        ip = info['partitions'][0]
+        view = ip['dpfs_view']
+        bs3 = ip['dpfs_block_sizes'][2]
+        offs = ip['dpfs_lv3_block_offsets']
+
+        def outside():
+            b = bytearray(bio.getvalue())
+            for i, o in enumerate(offs):
+                n = min(bs3, len(view) - i * bs3)
+                b[o:o + n] = b'|' * n
+            return bytes(b)
+        return c.partitions[0].dpfs_lv3_file, view, True, outside, [bio, c]
     raise ValueError(cls)
 
 
 def case_oracle(ctx, case, mr=None):
     rng = __import__('random').Random(case['vseed'])
     v, content, writable, probe, keep = build_view(rng, case['cls'], case['sz'])
+    ops = case['ops']
+    if case['cls'] in ('reader-file', 'dpfs-file'):
+        # the size of these views is known only once they are built: the history is drawn for the real size (same seed, so it replays)
+        ops = fc.gen_ops(rng, len(content), len(case['ops']) + 2, writable=writable, whences=(0, 0, 1, 2, 2))
+        case = dict(case, ops=ops)
     c = fc.Contract(v, content, fail_fn(ctx, case), writable=writable, probe_outside=probe)
-    c.run(case['ops'])
+    c.run(ops)
     ctx.stat(case['cls'] + '_histories')
     if case['cls'] == 'merger' and mr is not None:
         # the merged file also has a Coq model (Model/Merger.v): same history on the extracted model
-        ops = [o for o in case['ops'] if o[0] != 'w']
+        ops = [o for o in ops if o[0] != 'w']
         line = 'merger ' + (','.join(s.hex() for s in build_view.segs) or '-') + ' ' + ' '.join(
             ('r,' + zhex(o[1])) if o[0] == 'r' else ('s,%s,%s' % (zhex(o[1]), zhex(o[2]))) if o[0] == 's' else 't' for o in ops)
         if len(ops) == len(case['ops']):
@@ -155,13 +194,13 @@ def gen_cases(ctx, rng):
         blen = off + sz + extra if not short else rng.randrange(off, off + sz + 1)
         yield dict(cls='window', base=pyenv.rbytes(rng, blen).hex(), off=off, sz=sz,
                    ops=fc.gen_ops(rng, sz, rng.randrange(1, 16)))
-    for cls in ('nested-window', 'closewrapper', 'merger', 'ctr-on-window', 'twl-on-window', 'cbc-on-window'):
-        for i in range(ctx.n(300, 10000)):
+    for cls in ('nested-window', 'closewrapper', 'merger', 'ctr-on-window', 'twl-on-window', 'cbc-on-window', 'reader-file', 'dpfs-file'):
+        for i in range(ctx.n(300, 10000) if cls not in ('reader-file', 'dpfs-file') else ctx.n(60, 1500)):
             sz = rng.choice([0, 1, 2, 3, 5, 16, 17, 40])
             if cls == 'cbc-on-window':
                 sz = rng.choice([0, 16, 32, 48, 80])
             yield dict(cls=cls, sz=sz, vseed=rng.randrange(1 << 30),
-                       ops=fc.gen_ops(rng, sz, rng.randrange(1, 16), writable=(cls not in ('merger', 'cbc-on-window'))))
+                       ops=fc.gen_ops(rng, sz, rng.randrange(1, 16), writable=(cls not in ('merger', 'cbc-on-window', 'reader-file'))))
 
 
 def exhaustive_cases():
